@@ -86,6 +86,48 @@ def run(vc, pid, tier):
             dims = [n for n, a, c in (("features", ref[0], f), ("profile", ref[1], p), ("parity", ref[2], par)) if a != c]
             viols.append(dict(property=pid, case="config-diff:%s" % "+".join(dims), msg="results depend on %s: %s" % (" and ".join(dims), detail),
                               replay={"engine": "hmc", "root": r, "history": hist, "reference": list(ref), "config": [f, p, par]}))
+    # ---- second stage: the Buf / BufMut engines (adapters, getters, putters) in both profiles. Each run compares the
+    # crate with a profile-independent reference model, so a case that fails in one profile only is a result
+    # that depends on the profile.
+    stage2 = [("c09", "mini", 8), ("c11", "quick", 8), ("c12w", "quick", 2), ("c10", "quick", 8)] if tier != "thorough" else \
+             [("c09", "quick", 16), ("c11", "quick", 16), ("c12r", "quick", 16), ("c12w", "quick", 4), ("c10", "quick", 16)]
+    bex = {p: vc.build("bufmc", "std", p) for p in ("rel", "dbg")}
+    jobs2 = [(e, t, i, n, p) for (e, t, n) in stage2 for p in ("rel", "dbg") for i in range(n)]
+
+    def one2(job):
+        e, t, i, n, p = job
+        pr = subprocess.run([bex[p], e, "--tier", t, "--parity", "even", "--shard", str(i), "--nshards", str(n)], stdout=subprocess.PIPE, stderr=subprocess.PIPE, text=True, errors="replace")
+        res = None
+        for line in pr.stdout.splitlines():
+            if line.startswith("RESULT "):
+                res = json.loads(line[7:])
+        return job, res, pr.returncode, pr.stderr[-1500:]
+
+    seen = {}
+    with ThreadPoolExecutor(max_workers=vc.NCPU) as ex:
+        for job, res, rc, err in ex.map(one2, jobs2):
+            e, t, i, n, p = job
+            tag = "bufmc %s --tier %s --shard %d/%d [%s]" % (e, t, i, n, p)
+            if res is None:
+                if "CRASH signal=" in err:
+                    note = [l for l in err.splitlines() if l.startswith("CRASH")][:1]
+                    seen.setdefault((e, i), {}).setdefault(p, {})["crash"] = (note or ["crash"])[0]
+                else:
+                    errors.append("cross-profile worker failed rc=%s: %s\n%s" % (rc, tag, err))
+                continue
+            for v in res.get("violations", []):
+                seen.setdefault((e, i), {}).setdefault(p, {})[v["case"]] = v["msg"]
+            res["_worker"] = tag
+            res["violations"] = []
+            res["property"] = pid
+            res["extra"] = {"stage": "cross-profile " + e}
+            results.append(res)
+    for (e, i), byprof in sorted(seen.items()):
+        a, b = byprof.get("rel", {}), byprof.get("dbg", {})
+        for case in sorted(set(a) ^ set(b)):
+            where, msg = ("release", a[case]) if case in a else ("debug-assertions", b[case])
+            viols.append(dict(property=pid, case="profile-diff:%s:%s" % (e, case), msg="results depend on the build profile: only the %s build shows: %s" % (where, msg[:500]),
+                              replay={"worker": "bufmc %s --tier %s --parity even --shard %d --nshards %d" % (e, dict((x[0], x[1]) for x in stage2)[e], i, dict((x[0], x[2]) for x in stage2)[e])}))
     if viols:
         # attach to the first result so that merge() sees them
         if not results:
